@@ -121,7 +121,11 @@ func classifyF6(c *Ctx, pr *prover, fns []*ssa.Function) []*f6Result {
 		var rest []*f6Result
 		for _, r := range open {
 			pr.used = nil
+			v0 := pr.vacuousTop
 			ok, why := pr.proveOblig(r.Fn, r.O)
+			if ok && pr.vacuousTop != v0 {
+				pr.used = append(pr.used, "VACUOUS: the facts at this point are contradictory (unreachable code or an inconsistent assumption)")
+			}
 			if ok {
 				r.Cls, r.Why, r.Used = "B", "", pr.used
 			} else {
@@ -215,6 +219,7 @@ type prover struct {
 	callIdx        map[*ssa.Function][]ssa.CallInstruction
 	live           map[*ssa.Function]bool
 	asValue        map[*ssa.Function]bool
+	vacuousTop     int
 	nest           int  // nesting of cached sub-computations (summaries, preconditions, invariants)
 	taint          bool // something was derived without facts that will be available later: do not cache
 }
@@ -1250,7 +1255,20 @@ func (p *prover) prove(fn *ssa.Function, at ssa.Instruction, a, b term, c int64,
 		broken("facts engine exceeded its step budget")
 	}
 	s, _ := p.collect(fn, at, a, b, hyp, false)
+	v0 := vacuousProofs
 	if implies(s, a, b, c) {
+		if vacuousProofs != v0 && p.depth == 0 && p.nest == 0 {
+			p.vacuousTop++
+		}
+		if f6why != "" && strings.Contains(p.c.P.pos(at.Pos()), f6why) {
+			fmt.Printf("F6WHY at %s depth %d goal %s - %s <= %d holds by\n", p.c.P.pos(at.Pos()), p.depth, termStr(a), termStr(b), c)
+			for _, f := range s.fs {
+				fmt.Printf("   %s\n", linStr(f))
+			}
+			for _, f := range s.neq {
+				fmt.Printf("   %s - %s != %d\n", termStr(f.a), termStr(f.b), f.c)
+			}
+		}
 		return true
 	}
 	if dbg := os.Getenv("SLOGCHECK_F6DBG"); dbg != "" && strings.Contains(p.c.P.pos(at.Pos()), dbg) && (p.depth == 0 || os.Getenv("SLOGCHECK_F6DBGD") != "") {
@@ -2411,3 +2429,11 @@ func linStr(l lin) string {
 }
 
 // structFacts / axiom: see f6inv.go
+
+func init() {
+	if os.Getenv("SLOGCHECK_F6WHY") != "" {
+		f6why = os.Getenv("SLOGCHECK_F6WHY")
+	}
+}
+
+var f6why string
